@@ -12,6 +12,8 @@ usage: tools/benign_rename.py [reformat|suffix|scramble] [PID ...]
   yoda      operands of every == / != comparison swapped
   augassign every `x = x <op> e` rewritten as `x <op>= e`
   emptyctor every empty `[]` / `{}` literal on the right of an assignment rewritten as list() / dict()
+  ternary   `if c: x = a else: x = b` rewritten as `x = a if c else b`
+  hoist     `x = f(g(y), z)` rewritten as `_h = g(y); x = f(_h, z)`
   flatten   `if c: <body ending in return/continue/break/raise> else: B` rewritten as `if c: <body>` followed by B
   nest      the reverse: the statements after `if c: <... return>` moved into an else branch
   alias     every statement `self.a[.b].m(args)` / `x = self.a[.b].m(args)` rewritten as `_r = self.a[.b]` followed by `_r.m(args)`
@@ -219,7 +221,50 @@ class Nest(ast.NodeTransformer):
         return node
 
 
-TRANSFORMERS = {"flatten": Flatten, "nest": Nest, "alias": Alias, "invert": Invert, "guard": Guard, "yoda": Yoda, "augassign": Aug, "emptyctor": EmptyCtor}
+class Ternary(ast.NodeTransformer):
+    """`if c: x = a else: x = b` (same plain target, one assignment per arm)  ->  `x = a if c else b`"""
+    def visit_If(self, node):
+        self.generic_visit(node)
+        if len(node.body) == 1 and len(node.orelse) == 1 and isinstance(node.body[0], ast.Assign) and isinstance(node.orelse[0], ast.Assign):
+            a, b = node.body[0], node.orelse[0]
+            if len(a.targets) == 1 and len(b.targets) == 1 and isinstance(a.targets[0], ast.Name) and isinstance(b.targets[0], ast.Name) \
+                    and a.targets[0].id == b.targets[0].id:
+                return ast.Assign(targets=[ast.Name(id=a.targets[0].id, ctx=ast.Store())], value=ast.IfExp(test=node.test, body=a.value, orelse=b.value))
+        return node
+
+
+class Hoist(ast.NodeTransformer):
+    """first positional argument that is itself a call is computed into a temporary first: `x = f(g(y), z)` -> `_h = g(y); x = f(_h, z)`
+    (only when the callee expression is a plain name or an attribute chain of names, whose evaluation has no effect)"""
+    n = 0
+
+    def _ok_func(self, f):
+        while isinstance(f, ast.Attribute):
+            f = f.value
+        return isinstance(f, ast.Name)
+
+    def _split(self, st, call):
+        if call.args and isinstance(call.args[0], ast.Call) and self._ok_func(call.func) and not any(isinstance(a, ast.Starred) for a in call.args) \
+                and not any(isinstance(x, (ast.Yield, ast.YieldFrom, ast.Await, ast.NamedExpr, ast.Lambda, ast.GeneratorExp, ast.ListComp)) for x in ast.walk(call)):
+            Hoist.n += 1
+            nm = f"_h{Hoist.n}"                      # a fresh name per extraction, as a developer would choose
+            tmp = ast.Assign(targets=[ast.Name(id=nm, ctx=ast.Store())], value=call.args[0])
+            call.args[0] = ast.Name(id=nm, ctx=ast.Load())
+            return [tmp, st]
+        return st
+
+    def visit_Expr(self, node):
+        if isinstance(node.value, ast.Call):
+            return self._split(node, node.value)
+        return node
+
+    def visit_Assign(self, node):
+        if isinstance(node.value, ast.Call) and len(node.targets) == 1 and isinstance(node.targets[0], ast.Name):
+            return self._split(node, node.value)
+        return node
+
+
+TRANSFORMERS = {"ternary": Ternary, "hoist": Hoist, "flatten": Flatten, "nest": Nest, "alias": Alias, "invert": Invert, "guard": Guard, "yoda": Yoda, "augassign": Aug, "emptyctor": EmptyCtor}
 
 
 def transform(src: str) -> str:
